@@ -113,7 +113,10 @@ func RunRL(lg *rec.Log, sc RLScenario, seed int64) []rec.Ev {
 				time.Sleep(time.Duration(sc.SlowUs) * time.Microsecond)
 			}
 		},
-		func(ctx context.Context, err error) { lg.Add(rec.Ev{E: "recv", K: "E", U: us()}); once.Do(func() { close(done) }) },
+		func(ctx context.Context, err error) {
+			lg.Add(rec.Ev{E: "recv", K: "E", U: us()})
+			once.Do(func() { close(done) })
+		},
 		func(ctx context.Context) { lg.Add(rec.Ev{E: "recv", K: "C", U: us()}); once.Do(func() { close(done) }) },
 	)
 	sub := o.SubscribeWithContext(base, obs)
